@@ -90,7 +90,7 @@ pub fn gen_case(rng: &mut Rng) -> PadCase {
 }
 
 pub fn run(ctx: Ctx) -> Report {
-    let n_cases: usize = ctx.tier.pick(1600, 80_000);
+    let n_cases: usize = ctx.tier.pick(480_000, 6_000_000);
     run::run_sharded("C05", ctx.shards, move |shard, nshards, rep| {
         let mut rng = Rng::new(ctx.seed.wrapping_mul(0x7331).wrapping_add(shard as u64) ^ 0xC05);
         for i in 0..n_cases / nshards {
@@ -219,7 +219,7 @@ async fn concurrent_async(scheme: Scheme, writers: usize, rounds: usize, seed: u
 }
 
 pub fn run_concurrent(ctx: Ctx, rep: &mut Report, shard: usize, nshards: usize) {
-    let n = ctx.tier.pick(320, 16_000) / nshards;
+    let n = ctx.tier.pick(80_000, 1_000_000) / nshards;
     let mut rng = Rng::new(ctx.seed.wrapping_mul(0xC0FF).wrapping_add(shard as u64));
     for i in 0..n {
         let writers = rng.usize(2, 4);
